@@ -404,6 +404,21 @@ class World(WorldBase):
             op = {"op": "volume_matrix", "cfg": c, "nconfig": rng.randrange(cfg.T),
                   "deltar": rng.choice([0.01, 0.002, 0.05]), "transform": rng.random() < 0.3,
                   "save": save, "default_ndim": bool(cfg.ndim == 2 and rng.random() < 0.3)}
+            last = getattr(self, "last_vm", None)
+            if last is not None and last["cfg"] in self.configs and rng.random() < 0.5:
+                # the same request as the previous one (cancelled or not) - frame, step, output
+                # name and all - for a replica: another configuration of the same size
+                lc = self.configs[last["cfg"]]
+                twins = [x for x in small if self.configs[x].ndim == lc.ndim and self.configs[x].T > last["nconfig"]
+                         and self.configs[x].Ns[last["nconfig"]] == lc.Ns[last["nconfig"]]]
+                other = [x for x in twins if x != last["cfg"]]
+                if twins:
+                    c = rng.choice(other if other and rng.random() < 0.8 else twins)
+                    cfg = self.configs[c]
+                    op.update(cfg=c, nconfig=last["nconfig"], deltar=last["deltar"], transform=last["transform"], save=last["save"],
+                              default_ndim=bool(cfg.ndim == 2 and last["default_ndim"]))
+                    self.ctx.probe("volmat_same_request_for_a_replica" if c != last["cfg"] else "volmat_same_request_again")
+            self.last_vm = op
             lk = [k for k in sw["faults"] if k in LINE_FAULTS]
             if lk and rng.random() < 0.6:
                 # the analyst cancels the (slow) finite-difference loop at an arbitrary instant and
@@ -417,6 +432,15 @@ class World(WorldBase):
 
     def gen_config(self, rng, small=False):
         sw = self.swarm
+        sibs = [c for c in sorted(self.configs) if self.configs[c].N <= 14 and not self.configs[c].recipe.get("nvary")]
+        if sibs and rng.random() < 0.35:
+            # a replica of an existing configuration: same size, frames, time steps, box recipe -
+            # other coordinates (what a second run of the same job produces)
+            for _try in range(50):
+                rec = dict(self.configs[rng.choice(sibs)].recipe, subseed=rng.randrange(1 << 40))
+                if vconfig(rec).general_position():
+                    self.ctx.probe("replica_configuration")
+                    return {"op": "mk_config", "name": f"c{self.next_c}", "recipe": rec}
         for _try in range(200):
             ndim = rng.choice([2, 3])
             N = rng.randint(4, 14 if small else sw["maxN"])
